@@ -43,7 +43,7 @@ type NcbiLayout struct {
 
 // NcbiCorruption damages one token of a valid table.
 type NcbiCorruption struct {
-	Kind string `json:"kind"` // drop | extra | collabel | badscore | rowlabel2 | collabel2
+	Kind string `json:"kind"` // drop | extra | collabel | badscore | rowlabel2 | collabel2 | rowlabelutf8 | collabelutf8
 	Row  int    `json:"row"`
 	Col  int    `json:"col"`
 	Text string `json:"text"`
@@ -146,6 +146,9 @@ func genC20(t *rapid.T, thorough bool) C20Case {
 				e.A, e.B = p.B, p.A
 				if rapid.Bool().Draw(t, "same") {
 					e.V = p.V
+					if p.V == 0 && rapid.Bool().Draw(t, "negzero") {
+						e.V = gen.F(math.Copysign(0, -1)) // 0 and -0 are equal scores
+					}
 				}
 			}
 			c.Entries = append(c.Entries, e)
@@ -174,7 +177,7 @@ func genC20(t *rapid.T, thorough bool) C20Case {
 	c.Layout = genNcbiLayout(t)
 	if kind == "ncbi-bad" {
 		c.Corrupt = &NcbiCorruption{
-			Kind: rapid.SampledFrom([]string{"drop", "extra", "collabel", "badscore", "rowlabel2", "collabel2"}).Draw(t, "ckind"),
+			Kind: rapid.SampledFrom([]string{"drop", "extra", "collabel", "badscore", "rowlabel2", "collabel2", "rowlabelutf8", "collabelutf8"}).Draw(t, "ckind"),
 			Row:  rapid.IntRange(0, nr-1).Draw(t, "crow"),
 			Col:  rapid.IntRange(0, nc-1).Draw(t, "ccol"),
 			Text: rapid.SampledFrom([]string{"1.2.3", "--1", "x1", "1e", "abc", "1,5", "0x", "++2", "1e+", ".", "-"}).Draw(t, "ctext"),
@@ -261,6 +264,11 @@ func renderNcbi(c C20Case) []byte {
 	if cr != nil && cr.Kind == "collabel2" {
 		header[cr.Col%len(header)] += "x"
 	}
+	// a label that is one character but several bytes cannot be a (single-byte) matrix key
+	utf8Labels := []string{"\u00e9", "\u20ac", "\u0141", "\U0001F443", "\u00a0"}
+	if cr != nil && cr.Kind == "collabelutf8" {
+		header[cr.Col%len(header)] = utf8Labels[(cr.Row+cr.Col)%len(utf8Labels)]
+	}
 	// A header line that starts with '#' in column 0 would be a comment; labels exclude '#'.
 	writeLine(header)
 	k := 0
@@ -281,6 +289,8 @@ func renderNcbi(c C20Case) []byte {
 				tokens[col] = cr.Text
 			case "rowlabel2":
 				tokens[0] += "y"
+			case "rowlabelutf8":
+				tokens[0] = utf8Labels[(cr.Row+cr.Col)%len(utf8Labels)]
 			}
 		}
 		writeLine(tokens)
@@ -669,7 +679,7 @@ func exhaustiveC20(thorough bool, emit func(C20Case) bool) {
 		}
 	}
 	// every single-token corruption of the base table
-	for _, kind := range []string{"drop", "extra", "collabel", "badscore", "rowlabel2", "collabel2"} {
+	for _, kind := range []string{"drop", "extra", "collabel", "badscore", "rowlabel2", "collabel2", "rowlabelutf8", "collabelutf8"} {
 		for r := 0; r < 3; r++ {
 			for col := 0; col < 4; col++ {
 				for _, txt := range []string{"1.2.3", "--1", "x1", "1e", "abc", "1,5"} {
@@ -706,7 +716,7 @@ func exhaustiveC20(thorough bool, emit func(C20Case) bool) {
 			return true
 		}
 		for i := from; i < len(keys); i++ {
-			for _, v := range []gen.F{1, 2} {
+			for _, v := range []gen.F{1, 0, gen.F(math.Copysign(0, -1))} {
 				if !rec(append(es, MatEntry{A: keys[i][0], B: keys[i][1], V: v}), i+1) {
 					return false
 				}
